@@ -28,6 +28,21 @@ theorem lines_eq_layout (i : UInfo) (d : Nat) :
       spaces ((layout i d)[k]) <+: (splitLines (render i d) [])[k] :=
   Lemmas.Cli.lines_eq_layout sanitizes i d
 
+/-- the regenerated fact: text that starts an output line (description, attribute name, path) has its leading white
+    space escaped -/
+theorem escapes_lead : Gen.cliEscapesLead = true := by decide
+
+/-- INDENTATION IS THE STRUCTURE'S ALONE: line k is its structural indent followed by text that does not begin with
+    white space (any `unicode.IsSpace` rune) — the number of leading blanks of every output line equals the indentation
+    the structure prescribes, whatever the strings contain (a user ID "    Expires: never" cannot pose as an attribute
+    of a deeper level) -/
+theorem indent_exact (i : UInfo) (d : Nat) :
+    ∀ k (h₁ : k < (splitLines (render i d) []).length) (h₂ : k < (layout i d).length),
+      (∃ t, (splitLines (render i d) [])[k] = spaces ((layout i d)[k]) ++ t ∧
+            ∀ r, t.head? = some r → isSpaceRune r = false) ∧
+      leadingSpaces ((splitLines (render i d) [])[k]) = (layout i d)[k] :=
+  Lemmas.Cli.indent_exact sanitizes escapes_lead i d
+
 /-- the UTF-8 encoding of the written runes contains a C0/DEL byte only where a C0/DEL rune was written:
     so by `no_raw_control` the only such byte on standard output is the line terminator -/
 theorem encode_no_c0 (r : Nat) (hr : isControlRune r = false) :
@@ -58,8 +73,14 @@ theorem path_no_raw_control (path : List RUnit) : ∀ r ∈ pathPrefix path, isC
   rw [sanitizes_path] at hr
   simp only [if_true, List.mem_append] at hr
   rcases hr with hr | hr
-  · exact Lemmas.Cli.sanitize_clean sanitizes path r hr
+  · exact Lemmas.Cli.sanitizeLead_clean sanitizes path r hr
   · simp only [List.mem_cons, List.mem_nil_iff, or_false] at hr
     rcases hr with rfl | rfl <;> decide
+
+-- non-vacuity: a description of four blanks and "Expires: never" at depth 1 is written at exactly two blanks
+example :
+    let uid : List RUnit := (strBytes "    Expires: never").map RUnit.rune
+    (splitLines (render (.mk ((strBytes "key").map .rune) [] [.mk uid [] []]) 0) []).map leadingSpaces = [0, 2] := by
+  decide
 
 end WhatIs.C20
